@@ -50,7 +50,7 @@ LastPows(h) == IF h <= 1 THEN << >> ELSE ValsAt[h - 1]
 
 Init ==
   /\ sw = {}
-  /\ pool = [h |-> 1, req |-> << >>, peers |-> << >>, maxH |-> 0]
+  /\ pool = [h |-> 1, req |-> << >>, peers |-> << >>, maxH |-> 0, np |-> 0]
   /\ pending = {}
   /\ errq = {}
   /\ store = << >>
@@ -120,7 +120,7 @@ ResponseKinds(p, h) ==
 Timeout(p) ==
   /\ Running /\ p \notin Honest
   /\ p \in DOMAIN pool.peers /\ ~pool.peers[p].to
-  /\ \E h \in ReqHeights(pool) : pool.req[h].peer = p /\ pool.req[h].blk = NilBlk
+  /\ pool.peers[p].np > 0            \* the timer runs while the peer owes blocks (incrPending / decrPending)
   /\ pool' = [pool EXCEPT !.peers[p].to = TRUE]
   /\ errq' = errq \cup {p}
   /\ act' = [name |-> "Timeout", p |-> p]
@@ -233,6 +233,9 @@ SeenCommitsClean == \A h \in 1..Len(store) : VoteSetClean(Pows(h), store[h].seen
 TipSlack == 2
 TipWhenHonest ==
   (handed # "no" /\ \E p \in Honest : p \in DOMAIN pool.peers) => st.h >= T - TipSlack
+\* the pool's bookkeeping counters count what they claim to count (their consumer:
+\* makeRequestersRoutine stops creating requesters at maxPendingRequests -> ReachesTip)
+PendingCounterExact == PendingExact(pool) /\ PeerPendingExact(pool)
 \* structural
 PoolShape ==
   /\ \A h \in ReqHeights(pool) : h >= pool.h /\ h < pool.h + Cardinality(ReqHeights(pool))
